@@ -960,7 +960,7 @@ func c06(c *core.Ctx, r *core.Report) {
 	isSelfTable(c, r, "C06.R7")
 	// R6: narrowing is a subset
 	if fn, _, _ := narrowingFn(c, ps); fn != nil {
-		nrs, nruns, nund := narrowTable(c, fn, 2)
+		nrs, nruns, nund := narrowTable(c, fn, 3) // the holder next to two other candidates is the smallest list on which a single-valued point has a choice
 		r.Count("narrowing_table_runs", nruns)
 		if nund != "" {
 			r.Undecided("C06.R6", "narrowing-table", c.FnPos(fn), "abstract interpretation left the model: "+nund)
